@@ -4,6 +4,7 @@ C05 — FEN text and board are inverse representations.
 `Fen.display` is the model of `Display for Board`, `Fen.parseFen` of `parse_fen`.
 -/
 import ChessVerif.Proofs.FenRound
+import ChessVerif.Proofs.Builder
 
 namespace Chess.Props.C05
 open Chess Chess.Fen
@@ -58,5 +59,35 @@ theorem display_parse (b : Board) (hwf : b.WF = true) (hh : b.half ≤ 9999) (hf
 theorem standard_is_parsed :
     parseFen ("rnbqkbnr/pppppppp/8/8/8/8/PPPPPPPP/RNBQKBNR w KQkq - 0 0".toList.map (fun c => Fin.ofNat 256 c.toNat)) = .ok Board.standard := by
   rw [← standard_text]; exact standard_parse
+
+/-! ### the incremental builder -/
+
+/-- **The builder refines the mailbox builder** (`Spec/Build.lean`) for every sequence of calls: the same calls are
+accepted and refused, and afterwards every square, the side to move, the rights, the marker and the clocks are
+those of the mailbox — refused placements and removals leave no trace. -/
+theorem build_refines (ops : List BuildOp) (hops : ∀ op ∈ ops, OpOk op) :
+    (runBuild ops).2 = (Spec.runBuild ops).2 ∧
+    (∀ q, (Spec.abs (runBuild ops).1).pieceAt q = (Spec.runBuild ops).1.at_ q) ∧
+    (runBuild ops).1.turn = (Spec.runBuild ops).1.turn ∧ (runBuild ops).1.castle = (Spec.runBuild ops).1.castle ∧
+    (runBuild ops).1.ep = (Spec.runBuild ops).1.ep ∧ (runBuild ops).1.half = (Spec.runBuild ops).1.half ∧
+    (runBuild ops).1.full = (Spec.runBuild ops).1.full := by
+  obtain ⟨-, hr, hf⟩ := runBuild_spec ops hops
+  exact ⟨hf, hr.sq, hr.turn, hr.castle, hr.ep, hr.half, hr.full⟩
+
+/-- **Builder = parser.**  The board `build()` returns after any session is the board the parser returns for the
+text of that position: identical placement, side, rights, marker, clocks, hash and pin/check state. -/
+theorem build_eq_parse (ops : List BuildOp) (hops : ∀ op ∈ ops, OpOk op) (b : Board)
+    (h : Fen.build (runBuild ops).1 = .ok b) (hh : b.half ≤ 9999) (hf : b.full ≤ 9999) :
+    parseFen (display b) = .ok b :=
+  parseFen_display b (Fen.build_WF ops hops b h) hh hf
+
+/-- `build()` changes nothing but the cached pin/check sets -/
+theorem build_fields (b0 b : Board) (h : Fen.build b0 = .ok b) :
+    b.raw = b0.raw ∧ b.turn = b0.turn ∧ b.castle = b0.castle ∧ b.ep = b0.ep ∧ b.half = b0.half ∧
+    b.full = b0.full ∧ b.zobrist = b0.zobrist := by
+  unfold Fen.build at h
+  split at h
+  · cases h
+  · cases h; exact ⟨rfl, rfl, rfl, rfl, rfl, rfl, rfl⟩
 
 end Chess.Props.C05
